@@ -513,7 +513,7 @@ def fmt(t, depth=0):
     if k == "phi":
         return "phi(%s)" % ", ".join(_F(x) for x in t[1])
     if k == "mu":
-        return "mu(_%d@bb%d)" % (t[1], t[2])
+        return "mu(_%d@bb%d)" % (t[1], t[2]) if len(t) > 2 else "mu"
     return str(t)
 
 
